@@ -5,7 +5,11 @@
    direct state edits ("other things happening on the chain") used by the harness. *)
 From Sekai Require Import Base.Prelude Base.Dec Model.Gov.
 
-Record actor := mkA { a_active : bool; a_veto : bool; a_wl : list Z (* sorted *) }.
+(* NetworkActor: status, vote options (only "may veto" matters), individual permission whitelist and
+   blacklist, assigned roles (all lists sorted) *)
+Record actor := mkA { a_active : bool; a_veto : bool; a_wl : list Z; a_bl : list Z; a_roles : list Z }.
+(* permissions of a role *)
+Record role := mkRole { r_wl : list Z; r_bl : list Z }.
 Record np := mkNP { n_mintx : Z; n_maxtx : Z; n_quorum : Z; n_endtime : Z; n_enact : Z;
                     n_endblocks : Z; n_enactblocks : Z }.
 Definition NDUR : nat := 8.   (* proposal type codes 1..8 *)
@@ -13,7 +17,8 @@ Definition NREG : nat := 4.   (* registry key codes 1..4 *)
 (* one spending pool ("probe1"): only what the dynamic-voter proposal lifecycle reads *)
 Record pool := mkPool { pl_owners : list Z; pl_quorum : Z; pl_period : Z; pl_enact : Z }.
 Record world := mkW { w_np : np; w_actors : list (Z * actor) (* sorted by id *);
-                      w_durs : list Z; w_reg : list Z; w_pool : option pool }.
+                      w_durs : list Z; w_reg : list Z; w_pool : option pool;
+                      w_roles : list (Z * role) (* sorted by id; the roles the harness uses *) }.
 
 (* ---- canonical containers *)
 Fixpoint ins_sorted (x : Z) (l : list Z) : list Z :=
@@ -38,7 +43,17 @@ Fixpoint put_actor (who : Z) (a : actor) (l : list (Z * actor)) : list (Z * acto
   | (k, b) :: r => if k =? who then (who, a) :: r else if who <? k then (who, a) :: l else (k, b) :: put_actor who a r
   end.
 (* types.NewDefaultActor: active, all four vote options, no permissions *)
-Definition default_actor : actor := mkA true true [].
+Definition default_actor : actor := mkA true true [] [] [].
+Definition set_wl (a : actor) (l : list Z) : actor := mkA (a_active a) (a_veto a) l (a_bl a) (a_roles a).
+Definition set_bl (a : actor) (l : list Z) : actor := mkA (a_active a) (a_veto a) (a_wl a) l (a_roles a).
+Definition set_roles (a : actor) (l : list Z) : actor := mkA (a_active a) (a_veto a) (a_wl a) (a_bl a) l.
+Fixpoint get_role (r : Z) (l : list (Z * role)) : option role :=
+  match l with [] => None | (k, x) :: t => if k =? r then Some x else get_role r t end.
+Fixpoint put_role (r : Z) (x : role) (l : list (Z * role)) : list (Z * role) :=
+  match l with
+  | [] => [(r, x)]
+  | (k, y) :: t => if k =? r then (r, x) :: t else if r <? k then (r, x) :: l else (k, y) :: put_role r x t
+  end.
 
 (* ---- network properties (x/gov/keeper/keeper.go: Get/SetNetworkProperty, ValidateNetworkProperties;
    only the fields that vary in the generated histories; all others keep their valid defaults) *)
@@ -93,12 +108,21 @@ Definition valid_basic (c : ccontent) : bool :=
   | _ => true end.
 
 (* ---- oracles *)
+(* permissions through roles *)
+Definition via_roles (rs : list (Z * role)) (a : actor) (sel : role -> list Z) (perm : Z) : bool :=
+  existsb (fun r => match get_role r rs with Some ro => mem perm (sel ro) | None => false end) (a_roles a).
+(* holder of a permission: individually whitelisted or through a role that whitelists it *)
+Definition holder (rs : list (Z * role)) (perm : Z) (a : actor) : bool := mem perm (a_wl a) || via_roles rs a r_wl perm.
+(* keeper/util.go CheckIfAllowedPermission: whitelists of roles and actor, minus blacklists of roles and actor *)
 Definition w_has_perm (w : world) (who perm : Z) : bool :=
-  match get_actor who (w_actors w) with Some a => mem perm (a_wl a) | None => false end.
+  match get_actor who (w_actors w) with
+  | Some a => holder (w_roles w) perm a && negb (mem perm (a_bl a) || via_roles (w_roles w) a r_bl perm)
+  | None => false end.
 Definition w_is_active (w : world) (who : Z) : bool :=
   match get_actor who (w_actors w) with Some a => a_active a | None => false end.
+(* GetNetworkActorsByAbsoluteWhitelistPermission: by individual whitelist or by role, blacklists and status ignored *)
 Definition w_voters (w : world) (perm : Z) : list (Z * actor) :=
-  filter (fun ka => mem perm (a_wl (snd ka))) (w_actors w).
+  filter (fun ka => holder (w_roles w) perm (snd ka)) (w_actors w).
 (* the pool a dynamic-voter content refers to *)
 Definition pool_of (w : world) (c : ccontent) : option pool :=
   match c with CPoolUpdate 1 _ _ _ _ => w_pool w | _ => None end.
@@ -133,21 +157,23 @@ Definition w_enact_secs (w : world) (c : ccontent) : Z :=
   if vote_perm c =? 0 then match pool_of w c with Some p => pl_enact p | None => 0 end else n_enact (w_np w).
 
 (* ---- handlers *)
-Definition with_np (w : world) (n : np) : world := mkW n (w_actors w) (w_durs w) (w_reg w) (w_pool w).
-Definition with_actors (w : world) (l : list (Z * actor)) : world := mkW (w_np w) l (w_durs w) (w_reg w) (w_pool w).
-Definition with_durs (w : world) (l : list Z) : world := mkW (w_np w) (w_actors w) l (w_reg w) (w_pool w).
-Definition with_reg (w : world) (l : list Z) : world := mkW (w_np w) (w_actors w) (w_durs w) l (w_pool w).
-Definition with_pool (w : world) (p : option pool) : world := mkW (w_np w) (w_actors w) (w_durs w) (w_reg w) p.
+Definition with_np (w : world) (n : np) : world := mkW n (w_actors w) (w_durs w) (w_reg w) (w_pool w) (w_roles w).
+Definition with_actors (w : world) (l : list (Z * actor)) : world := mkW (w_np w) l (w_durs w) (w_reg w) (w_pool w) (w_roles w).
+Definition with_durs (w : world) (l : list Z) : world := mkW (w_np w) (w_actors w) l (w_reg w) (w_pool w) (w_roles w).
+Definition with_reg (w : world) (l : list Z) : world := mkW (w_np w) (w_actors w) (w_durs w) l (w_pool w) (w_roles w).
+Definition with_pool (w : world) (p : option pool) : world := mkW (w_np w) (w_actors w) (w_durs w) (w_reg w) p (w_roles w).
+Definition with_roles (w : world) (l : list (Z * role)) : world := mkW (w_np w) (w_actors w) (w_durs w) (w_reg w) (w_pool w) l.
 
 Definition whitelist (who perm : Z) (w : world) : outcome world :=
   let a := match get_actor who (w_actors w) with Some a => a | None => default_actor end in
   if mem perm (a_wl a) then Err "permission already whitelisted"
-  else Ok (with_actors w (put_actor who (mkA (a_active a) (a_veto a) (ins_sorted perm (a_wl a))) (w_actors w))).
+  else if mem perm (a_bl a) then Err "permission is blacklisted"
+  else Ok (with_actors w (put_actor who (set_wl a (ins_sorted perm (a_wl a))) (w_actors w))).
 Definition unwhitelist (who perm : Z) (w : world) : outcome world :=
   match get_actor who (w_actors w) with
   | None => Err "permission is not whitelisted"
   | Some a => if mem perm (a_wl a)
-              then Ok (with_actors w (put_actor who (mkA (a_active a) (a_veto a) (del perm (a_wl a))) (w_actors w)))
+              then Ok (with_actors w (put_actor who (set_wl a (del perm (a_wl a))) (w_actors w)))
               else Err "whitelisted permission does not exist"
   end.
 (* keeper.SetProposalDuration *)
@@ -193,18 +219,57 @@ Inductive cext :=
 | XSetActive (who : Z) (b : bool)
 | XSetVeto (who : Z) (b : bool)
 | XSetNP (pid v : Z)
-| XSetDur (ty d : Z).
+| XSetDur (ty d : Z)
+| XBlacklist (who perm : Z)          (* keeper.AddBlacklistPermission *)
+| XUnblacklist (who perm : Z)        (* keeper.RemoveBlacklistedPermission *)
+| XAssignRole (who r : Z)            (* keeper.AssignRoleToAccount (MsgAssignRole / assign-role proposal) *)
+| XUnassignRole (who r : Z)          (* keeper.UnassignRoleFromAccount (MsgUnassignRole / unassign-role proposal) *)
+| XRoleWl (r perm : Z) (add : bool)  (* keeper.WhitelistRolePermission / RemoveWhitelistRolePermission *)
+| XRoleBl (r perm : Z) (add : bool). (* keeper.BlacklistRolePermission / RemoveBlacklistRolePermission *)
 
 Definition c_ext (e : cext) (w : world) : world :=
   match e with
   | XWhitelist who perm => match whitelist who perm w with Ok w' => w' | _ => w end
   | XUnwhitelist who perm => match unwhitelist who perm w with Ok w' => w' | _ => w end
   | XSetActive who b => match get_actor who (w_actors w) with
-                        | Some a => with_actors w (put_actor who (mkA b (a_veto a) (a_wl a)) (w_actors w)) | None => w end
+                        | Some a => with_actors w (put_actor who (mkA b (a_veto a) (a_wl a) (a_bl a) (a_roles a)) (w_actors w)) | None => w end
   | XSetVeto who b => match get_actor who (w_actors w) with
-                      | Some a => with_actors w (put_actor who (mkA (a_active a) b (a_wl a)) (w_actors w)) | None => w end
+                      | Some a => with_actors w (put_actor who (mkA (a_active a) b (a_wl a) (a_bl a) (a_roles a)) (w_actors w)) | None => w end
   | XSetNP pid v => match np_set pid v (w_np w) with Some n => with_np w n | None => w end
   | XSetDur ty d => match set_duration ty d w with Some w' => w' | None => w end
+  | XBlacklist who perm =>
+      let a := match get_actor who (w_actors w) with Some a => a | None => default_actor end in
+      if mem perm (a_wl a) || mem perm (a_bl a) then w
+      else with_actors w (put_actor who (set_bl a (ins_sorted perm (a_bl a))) (w_actors w))
+  | XUnblacklist who perm =>
+      match get_actor who (w_actors w) with
+      | Some a => if mem perm (a_bl a) then with_actors w (put_actor who (set_bl a (del perm (a_bl a))) (w_actors w)) else w
+      | None => w end
+  | XAssignRole who r =>
+      match get_role r (w_roles w) with
+      | None => w
+      | Some _ => let a := match get_actor who (w_actors w) with Some a => a | None => default_actor end in
+                  if mem r (a_roles a) then w
+                  else with_actors w (put_actor who (set_roles a (ins_sorted r (a_roles a))) (w_actors w))
+      end
+  | XUnassignRole who r =>
+      match get_role r (w_roles w), get_actor who (w_actors w) with
+      | Some _, Some a => if mem r (a_roles a) then with_actors w (put_actor who (set_roles a (del r (a_roles a))) (w_actors w)) else w
+      | _, _ => w end
+  | XRoleWl r perm add =>
+      match get_role r (w_roles w) with
+      | None => w
+      | Some ro => if add then (if mem perm (r_wl ro) || mem perm (r_bl ro) then w
+                                else with_roles w (put_role r (mkRole (ins_sorted perm (r_wl ro)) (r_bl ro)) (w_roles w)))
+                   else (if mem perm (r_wl ro) then with_roles w (put_role r (mkRole (del perm (r_wl ro)) (r_bl ro)) (w_roles w)) else w)
+      end
+  | XRoleBl r perm add =>
+      match get_role r (w_roles w) with
+      | None => w
+      | Some ro => if add then (if mem perm (r_wl ro) || mem perm (r_bl ro) then w
+                                else with_roles w (put_role r (mkRole (r_wl ro) (ins_sorted perm (r_bl ro))) (w_roles w)))
+                   else (if mem perm (r_bl ro) then with_roles w (put_role r (mkRole (r_wl ro) (del perm (r_bl ro))) (w_roles w)) else w)
+      end
   end.
 
 (* ---- x/recovery RotateRecoveryAddress, gov part: the network actor record (status, vote options,
